@@ -137,3 +137,21 @@ def group_labels(rng, n, kind):
     g = np.asarray(g)
     perm = rng.permutation(n)
     return g[perm]
+
+
+_BUFFERS = {}
+
+
+def reused_buffer(arr):
+    """the caller's preallocated array: one buffer per (shape, dtype) for the whole process, overwritten in place with
+    the new content and handed out again -- the same object (same id) carries different values from call to call,
+    which is how analysis loops over subjects commonly reuse arrays.  Code that remembers an argument by identity
+    instead of by value is caught by the next call."""
+    import numpy as np
+    arr = np.asarray(arr)
+    key = (arr.shape, arr.dtype.str)
+    buf = _BUFFERS.get(key)
+    if buf is None:
+        buf = _BUFFERS[key] = np.empty(arr.shape, dtype=arr.dtype)
+    buf[...] = arr
+    return buf
